@@ -234,6 +234,41 @@ var trConfs = []trConf{
 			"err := msg.DenomMetadata.Validate()": {"err := if metadataInvalid then 7 else 0"},
 			"authorityMetadata, err := server.Keeper.GetAuthorityMetadata(ctx, msg.DenomMetadata.Base)": {"err := if authorityErr then 1 else 0"}},
 		returns: map[string]string{"return nil, err": ".rejected err", "return nil, types.ErrUnauthorized": ".rejected 3", "return &types.MsgSetDenomMetadataResponse{}, nil": ".done"}},
+	{key: "x/paloma/keeper.Keeper.CreateLightNodeClientLicense", lean: "createLicense", ret: "LicOutcome",
+		prelude: "/-- what the light-node licence functions do: refuse (code; `accountCreated`: the new base account had already been written when the\n    function failed, so the caller's branched store must be dropped) or complete -/\ninductive LicOutcome where\n  | rejected (code : Nat) (accountCreated : Bool)\n  | done\nderiving DecidableEq, Repr",
+		params: []trParam{{"creatorBad", "Bool"}, {"formatBad", "Bool"}, {"amountValid", "Bool"}, {"licLookup", "Nat"}, {"clientBad", "Bool"},
+			{"hasAccount", "Bool"}, {"lockFails", "Bool"}, {"storeFails", "Bool"}},
+		init: []string{"let mut err : Nat := 0", "let mut accountCreated : Bool := false"},
+		atoms: map[string]string{"err != nil": "err != 0", "err == nil": "err == 0", "errors.Is(err, keeperutil.ErrNotFound)": "err == 1",
+			"sdk.VerifyAddressFormat(creatorAcct) != nil": "formatBad", "amount.IsValid()": "amountValid", "k.accountKeeper.HasAccount(ctx, acct)": "hasAccount"},
+		skip: []string{"license := &types.LightNodeClientLicense{ ClientAddress: clientAddr, Amount: amount, VestingMonths: vestingMonths, }",
+			"baseAccount := authtypes.NewBaseAccountWithAddress(acct)", "baseAccount = k.accountKeeper.NewAccount(ctx, baseAccount).(*authtypes.BaseAccount)"},
+		stmts: map[string][]string{
+			"creatorAcct, err := sdk.AccAddressFromBech32(creatorAddr)":                  {"err := if creatorBad then 2 else 0"},
+			"_, err = k.GetLightNodeClientLicense(ctx, clientAddr)":                      {"err := licLookup"},
+			"acct, err := k.accountKeeper.AddressCodec().StringToBytes(clientAddr)":       {"err := if clientBad then 3 else 0"},
+			"k.accountKeeper.SetAccount(ctx, baseAccount)":                               {"accountCreated := true"},
+			"err = k.bankKeeper.SendCoinsFromAccountToModule(ctx, creatorAcct, types.ModuleName, sdk.Coins{amount})": {"err := if lockFails then 5 else 0"}},
+		returns: map[string]string{"return err": ".rejected err accountCreated", "return types.ErrInvalidParameters": ".rejected 10 accountCreated",
+			"return types.ErrLicenseExists": ".rejected 11 accountCreated", "return types.ErrAccountExists": ".rejected 12 accountCreated",
+			"return k.SetLightNodeClientLicense(ctx, clientAddr, license)": "if storeFails then .rejected 6 accountCreated else .done"}},
+	{key: "x/paloma/keeper.Keeper.CreateSaleLightNodeClientLicense", lean: "createSaleLicense", ret: "SaleOutcome",
+		prelude: "/-- what `CreateSaleLightNodeClientLicense` does: refuse (20 no fee granter, 21 no funder, 22 no funder can pay, 1 store failure, 3 client address,\n    other: what licence creation / the fee grant returned) or create the licence paid by funder number `funder` and grant the fee allowance -/\ninductive SaleOutcome where\n  | rejected (code : Nat)\n  | done (funder : Nat)\nderiving DecidableEq, Repr",
+		params: []trParam{{"feegranterLookup", "Nat"}, {"fundersLookup", "Nat"}, {"hasBalance", "List Bool"}, {"createCode", "Nat → Nat"}, {"clientBad", "Bool"}, {"grantCode", "Nat"}},
+		init: []string{"let mut err : Nat := 0", "let mut funder : Option Nat := none"},
+		atoms: map[string]string{"err != nil": "err != 0", "errors.Is(err, keeperutil.ErrNotFound)": "err == 1",
+			"funders.Accounts": "hasBalance", "k.bankKeeper.HasBalance(ctx, funders.Accounts[i], coin)": "hasBalance.getD i false", "funder == nil": "funder.isNone"},
+		skip: []string{"coin := sdk.NewCoin(k.bondDenom, amount.Mul(math.NewInt(1_000_000)))", "var funder sdk.AccAddress",
+			"allowance := &feegrantmodule.BasicAllowance{ SpendLimit: sdk.NewCoins(sdk.NewCoin(k.bondDenom, math.NewInt(1_000_000))), Expiration: nil, }"},
+		stmts: map[string][]string{
+			"feegranter, err := k.LightNodeClientFeegranter(ctx)": {"err := feegranterLookup"},
+			"funders, err := k.LightNodeClientFunders(ctx)":       {"err := fundersLookup"},
+			"funder = funders.Accounts[i]":                        {"funder := some i"},
+			"err = k.CreateLightNodeClientLicense(ctx, funder.String(), clientAddr, coin, lightNodeSaleVestingMonths)": {"err := createCode (funder.getD 0)"},
+			"acct, err := k.accountKeeper.AddressCodec().StringToBytes(clientAddr)":                                    {"err := if clientBad then 3 else 0"}},
+		returns: map[string]string{"return types.ErrNoFeegranter": ".rejected 20", "return types.ErrNoFunder": ".rejected 21", "return err": ".rejected err",
+			"return types.ErrInsufficientBalance": ".rejected 22",
+			"return k.feegrantKeeper.GrantAllowance(ctx, feegranter.Account, acct, allowance)": "if grantCode != 0 then .rejected grantCode else .done (funder.getD 0)"}},
 	{key: "x/metrix/keeper.calculateUptime", lean: "calculateUptimeGuard", ret: "Bool",
 		params: []trParam{{"window", "Int"}, {"missed", "Int"}},
 		// only the guard is arithmetic; the division goes through big.Float (modelled in C14's score arithmetic)
@@ -597,7 +632,8 @@ func (c *trCtx) block(stmts []ast.Stmt, ind string, out *[]string) {
 		text := src(st)
 		skipped := false
 		for _, s := range c.conf.skip {
-			if s == text {
+			// a declaration is printed with its doc comment in front
+			if s == text || (strings.HasPrefix(text, "//") && strings.HasSuffix(text, " "+s)) {
 				skipped = true
 			}
 		}
@@ -772,6 +808,22 @@ func (c *trCtx) block(stmts []ast.Stmt, ind string, out *[]string) {
 			}
 		case *ast.RangeStmt:
 			if s.Key != nil && src(s.Key) != "_" {
+				// `for i := range L` (index only, no early exit): `i` runs over 0 .. len L - 1 as a natural number and may only
+				// occur inside atoms / stand-ins
+				if s.Value == nil && !leavesEarly(s.Body.List) {
+					// emitted as a left fold over the indices, with the one variable the body assigns as the accumulator
+					muts := assignedVars(s.Body.List, c.conf)
+					if len(muts) != 1 {
+						c.fail("index loop assigning %d variables", len(muts))
+						continue
+					}
+					m := muts[0]
+					emit(fmt.Sprintf("%s := (List.range (%s).length).foldl (fun %s__ %s => Id.run do", m, c.expr(s.X), m, src(s.Key)))
+					emit(fmt.Sprintf("    let mut %s := %s__", m, m))
+					c.block(s.Body.List, ind+"    ", out)
+					emit(fmt.Sprintf("    return %s) %s", m, m))
+					continue
+				}
 				c.fail("range with an index variable: %s", src(s.Key))
 				continue
 			}
